@@ -12,6 +12,7 @@ import (
 	"io"
 	"net"
 	"runtime"
+	"strings"
 	"sync"
 	"sync/atomic"
 	"time"
@@ -138,8 +139,36 @@ func (l *FakeListener) SetDeadline(t time.Time) error {
 // Connect queues a new connection for Accept and returns the client end.
 func (l *FakeListener) Connect() net.Conn {
 	c, s := net.Pipe()
-	l.ch <- acceptItem{conn: s}
+	l.ch <- acceptItem{conn: sockLikePipe{s}}
 	return c
+}
+
+// sockLikePipe makes the service end of a net.Pipe behave like a socket in one respect: arming a
+// deadline after the peer has closed is not an error (net.Pipe returns io.ErrClosedPipe there, a
+// kernel socket does not). Without it the library's "set deadline, then read" sequence would
+// drop complete frames that are already buffered when the peer closes - an artefact of the
+// in-memory transport, not behaviour of the library on any real transport.
+type sockLikePipe struct{ net.Conn }
+
+func (p sockLikePipe) SetDeadline(t time.Time) error {
+	if err := p.Conn.SetDeadline(t); err != nil && err != io.ErrClosedPipe {
+		return err
+	}
+	return nil
+}
+
+func (p sockLikePipe) SetReadDeadline(t time.Time) error {
+	if err := p.Conn.SetReadDeadline(t); err != nil && err != io.ErrClosedPipe {
+		return err
+	}
+	return nil
+}
+
+func (p sockLikePipe) SetWriteDeadline(t time.Time) error {
+	if err := p.Conn.SetWriteDeadline(t); err != nil && err != io.ErrClosedPipe {
+		return err
+	}
+	return nil
 }
 
 // InjectTimeout makes the next Accept return a timeout error.
@@ -253,6 +282,9 @@ type ScriptIface struct {
 	Name string
 	Desc string
 	Log  *InvLog
+	// AllowIO enables the sleep/read/readbytes/write actions (only the upgrade/cancellation properties use them;
+	// elsewhere a fuzzer-made script must not be able to stall the handler or eat the client's bytes).
+	AllowIO bool
 	// Hook, if set, is called for ops the generic interpreter does not know.
 	Hook func(ctx context.Context, c *varlink.Call, op Op) (OpResult, error)
 }
@@ -323,22 +355,14 @@ func (s *ScriptIface) VarlinkDispatch(ctx context.Context, c varlink.Call, metho
 			err = c.ReplyInvalidParameter(ctx, op.S)
 		case "yield":
 			runtime.Gosched()
-		case "sleep":
-			time.Sleep(time.Duration(op.N) * time.Millisecond)
+		case "sleep", "read", "readbytes", "write":
+			if !s.AllowIO {
+				break
+			}
+			res, err = s.doIO(ctx, &c, op)
 		case "fail":
 			record(OpResult{Err: "fail"})
 			return finish(ErrHandlerFail)
-		case "read":
-			buf := make([]byte, op.N)
-			var n int
-			n, err = c.Conn.Read(ctx, buf)
-			res.Data = buf[:n]
-		case "readbytes":
-			var b []byte
-			b, err = c.Conn.ReadBytes(ctx, 0)
-			res.Data = b
-		case "write":
-			_, err = c.Conn.Write(ctx, op.Data)
 		default:
 			if s.Hook != nil {
 				res, err = s.Hook(ctx, &c, op)
@@ -351,6 +375,25 @@ func (s *ScriptIface) VarlinkDispatch(ctx context.Context, c varlink.Call, metho
 		}
 	}
 	return finish(nil)
+}
+
+func (s *ScriptIface) doIO(ctx context.Context, c *varlink.Call, op Op) (res OpResult, err error) {
+	switch op.Op {
+	case "sleep":
+		time.Sleep(time.Duration(op.N) * time.Millisecond)
+	case "read":
+		buf := make([]byte, op.N)
+		var n int
+		n, err = c.Conn.Read(ctx, buf)
+		res.Data = buf[:n]
+	case "readbytes":
+		var b []byte
+		b, err = c.Conn.ReadBytes(ctx, 0)
+		res.Data = b
+	case "write":
+		_, err = c.Conn.Write(ctx, op.Data)
+	}
+	return res, err
 }
 
 // VarlinkGetName implements the dispatcher interface.
@@ -484,6 +527,42 @@ func RawExchange(conn net.Conn, segments [][]byte, bound time.Duration, settle t
 	}
 	wg.Wait()
 	return got, eof, werr
+}
+
+var (
+	stackMu  sync.Mutex
+	stackBuf []byte
+)
+
+// LibGoroutines returns "" when no goroutine has a github.com/varlink/go/varlink frame on its
+// stack (waiting up to bound for stragglers to finish), else the offending stacks.
+func LibGoroutines(bound time.Duration) string {
+	dl := time.Now().Add(bound)
+	stackMu.Lock()
+	defer stackMu.Unlock()
+	if stackBuf == nil {
+		stackBuf = make([]byte, 1<<20)
+	}
+	buf := stackBuf
+	for {
+		n := runtime.Stack(buf, true)
+		var bad []string
+		for _, g := range strings.Split(string(buf[:n]), "\n\n") {
+			if strings.Contains(g, "github.com/varlink/go/varlink") && !strings.Contains(g, "LibGoroutines") {
+				bad = append(bad, g)
+			}
+		}
+		if len(bad) == 0 {
+			return ""
+		}
+		if time.Now().After(dl) {
+			if len(bad) > 4 {
+				bad = bad[:4]
+			}
+			return strings.Join(bad, "\n\n")
+		}
+		time.Sleep(200 * time.Microsecond)
+	}
 }
 
 // SplitFrames splits a byte stream at NUL; rest is the unterminated tail.
